@@ -301,7 +301,8 @@ def run(ctx):
             n6 += 1
             facts = gx.facts_at(bi)
             ok = any(x[0] == "call" and x[1].split("::")[-1].startswith("try_allocate") and x[2] is True for x in facts) or \
-                any(x[0] == "cmp" and x[1] in ("Lt", "Le", "Eq") for x in facts)
+                any(x[0] == "cmp" and x[1] in ("Lt", "Le", "Eq") for x in facts) or \
+                any(x[0] == "variant" and x[1].endswith("cmp::Ordering") and x[2] in ("Less", "Equal", "255", "-1", "0") for x in facts)
             ctx.ob("R6", "%s#size-write-after-outcome[%d]" % (short_id(g.id), k), ok,
                    what="%s writes the grant's size before the outcome of the reservation is known (the write is dominated neither by a "
                         "successful try_allocate* nor by the shrinking comparison): a refused grow stays recorded, the grant later "
